@@ -28,7 +28,188 @@ let terms_of_text (s : string) : ((n * n) list * z) list =
 
 exception Not_enabled of string
 
-let run (toks : string list) (cout : string list) : string =
+(* ------------------------------------------------------------------------------------------------ *)
+(* cross-order cases (see harness/c18.c: xorder): the same operation under several orders must give the same
+   denoted result.  Verdict by CHECK: exact reference where the reference model has one (add, sub, mul, derivative,
+   cont*pp = A, resultant = Sylvester determinant, sign and value at the assignment = EvalSgnRef.ref_eval, real
+   roots at rational assignments = RefAlg.rn_roots), agreement across the orders otherwise (gcd, lcm up to sign
+   with gcd*lcm = +-A*B; prem and roots per main variable). *)
+exception Timeout
+let deadline = ref infinity
+let _ = Gc.create_alarm (fun () -> if Sys.time () > !deadline then (deadline := infinity; raise Timeout))
+let big = nat_of_int 4000
+
+let order_of_digits (s : string) : order =
+  { olist = (if s = "-" then [] else List.init (String.length s) (fun i -> n_of_int (Char.code s.[i] - 48))); otop = None; obot = None }
+let split_bar (l : string list) : string list list =
+  let rec go cur acc = function
+    | [] -> List.rev (List.rev cur :: acc)
+    | "|" :: t -> go [] (List.rev cur :: acc) t
+    | h :: t -> go (h :: cur) acc t in
+  go [] [] l
+let norm_sign (p : mpoly) : mpoly = match p with (_, c) :: _ when sgn_of_z c < 0 -> mp_neg p | _ -> p
+let eq_up_to_sign p q = mp_eqb (norm_sign p) (norm_sign q)
+let tv o p = match top_var o p with None -> "t-" | Some x -> "t" ^ string_of_n x
+let same_value (a : rnum) (b : rnum) = match rn_cmp big a b with Some c -> sgn_of_z c = 0 | None -> false
+exception Fail of string
+let fail fmt = Printf.ksprintf (fun s -> raise (Fail s)) fmt
+
+let run_xorder (toks : string list) (cout : string list) : string =
+  match toks with
+  | _ :: op :: ta :: tb :: k :: rest ->
+    let k = int_of_string k in
+    let rec take n l = if n = 0 then [] else match l with [] -> [] | h :: t -> h :: take (n - 1) t in
+    let rec drop n l = if n = 0 then l else match l with [] -> [] | _ :: t -> drop (n - 1) t in
+    let orders = List.map order_of_digits (take k rest) in
+    let vals = Array.of_list (drop k rest) in
+    let a = mpoly_of_string ta in
+    let b = if tb = "-" then [] else mpoly_of_string tb in
+    let groups = split_bar cout in
+    if List.length groups <> k then "CHECK fail: number of result groups" else
+    (try
+      deadline := Sys.time () +. 20.0;
+      (* every group ends with the operand A as it is after the operation: same polynomial, in order *)
+      let bodies = List.map (fun g ->
+        match List.rev g with
+        | last :: body when last = string_of_mpoly a ^ "/1" -> List.rev body
+        | last :: _ -> fail "operand after the operation is `%s`, expected `%s/1`" last (string_of_mpoly a)
+        | [] -> fail "empty group") groups in
+      let og = List.combine orders bodies in
+      let value_of x : rnum option =
+        let i = int_of_n x in
+        if i < Array.length vals && vals.(i) <> "none" then Some (rnum_of_token vals.(i)) else None in
+      (match op with
+       | "ar" ->
+         List.iter (fun (_, g) ->
+           if g <> [string_of_mpoly (mp_add a b); string_of_mpoly (mp_sub a b); string_of_mpoly (mp_mul a b)] then
+             fail "add/sub/mul: `%s`" (String.concat " " g)) og
+       | "gl" ->
+         let res = List.map (fun (_, g) -> match g with
+           | ["X"] -> if a = [] || b = [] then None else fail "X on non-zero operands"
+           | [g; l] -> if a = [] || b = [] then fail "result on a zero operand" else Some (mpoly_of_string g, mpoly_of_string l)
+           | _ -> fail "gl: malformed group") og in
+         (match List.filter_map (fun x -> x) res with
+          | [] -> ()
+          | (g0, l0) :: more ->
+            if not (eq_up_to_sign (mp_mul g0 l0) (mp_mul a b)) then fail "gcd * lcm <> +-A*B (gcd %s, lcm %s)" (string_of_mpoly g0) (string_of_mpoly l0);
+            List.iter (fun (g, l) ->
+              if not (eq_up_to_sign g g0) then fail "gcd depends on the order: %s vs %s" (string_of_mpoly g0) (string_of_mpoly g);
+              if not (eq_up_to_sign l l0) then fail "lcm depends on the order: %s vs %s" (string_of_mpoly l0) (string_of_mpoly l)) more)
+       | "rp" ->
+         let seen = Hashtbl.create 8 in
+         List.iter (fun (o, g) ->
+           match g with
+           | ta' :: tb' :: r ->
+             if ta' <> tv o a || tb' <> tv o b then fail "main variables %s %s, expected %s %s" ta' tb' (tv o a) (tv o b);
+             (match top_var o a, top_var o b, r with
+              | Some x, Some y, [res; prem] when x = y ->
+                let res = mpoly_of_string res and prem = mpoly_of_string prem in
+                if not (mp_eqb res (mp_res_x x a b)) then
+                  fail "resultant in x%s is %s, Sylvester determinant %s" (string_of_n x) (string_of_mpoly res) (string_of_mpoly (mp_res_x x a b));
+                (match Hashtbl.find_opt seen x with
+                 | None -> Hashtbl.add seen x prem
+                 | Some p0 -> if not (mp_eqb p0 prem) then fail "prem in x%s depends on the order: %s vs %s" (string_of_n x) (string_of_mpoly p0) (string_of_mpoly prem))
+              | Some x, Some y, _ when x = y -> fail "rp: malformed group"
+              | _, _, ["X"] -> ()
+              | _ -> fail "rp: X expected")
+           | _ -> fail "rp: malformed group") og
+       | "cpd" ->
+         let seen = Hashtbl.create 8 in
+         List.iter (fun (o, g) ->
+           match g with
+           | ta' :: r ->
+             if ta' <> tv o a then fail "main variable %s, expected %s" ta' (tv o a);
+             (match r with
+              | ["X"] -> if a <> [] then fail "X on a non-zero operand"
+              | [c; p; d] ->
+                let c = mpoly_of_string c and p = mpoly_of_string p and d = mpoly_of_string d in
+                if a = [] then fail "result on the zero polynomial";
+                if not (mp_eqb (mp_mul c p) a) then fail "cont * pp <> A";
+                (match top_var o a with
+                 | None -> if d <> [] then fail "derivative of a constant"
+                 | Some x ->
+                   if int_of_n (mp_degree x c) <> 0 then fail "content mentions the main variable";
+                   if not (mp_eqb d (mp_deriv x a)) then fail "derivative in x%s is %s" (string_of_n x) (string_of_mpoly d);
+                   (match Hashtbl.find_opt seen x with
+                    | None -> Hashtbl.add seen x c
+                    | Some c0 -> if not (eq_up_to_sign c0 c) then fail "content in x%s depends on the order" (string_of_n x)))
+              | _ -> fail "cpd: malformed group")
+           | _ -> fail "cpd: malformed group") og
+       | "se" ->
+         let vl = List.map (fun x -> match value_of x with Some r -> (x, r) | None -> fail "unassigned variable") (mp_vars a) in
+         let vl = List.filter (fun (_, r) -> match r with RQ _ -> true | _ -> false) vl
+                  @ List.filter (fun (_, r) -> match r with RQ _ -> false | _ -> true) vl in
+         let v = (match (if vl = [] then (match a with [] -> Some (RQ (z_of_int 0, z_of_int 1)) | [(_, c)] -> Some (RQ (c, z_of_int 1)) | _ -> None)
+                         else ref_eval big vl a) with Some v -> v | None -> raise Timeout) in
+         let s = "s" ^ string_of_int (sgn_of_z (rn_sgn v)) in
+         List.iter (fun (_, g) ->
+           match g with
+           | [s1; value; s2] ->
+             if s1 <> s || s2 <> s then fail "sgn %s / %s, reference %s" s1 s2 s;
+             (match value_of_token value with
+              | (_, XFin r) -> if not (same_value r v) then fail "evaluate gives %s, reference %s" value (string_of_rnum v)
+              | _ -> fail "evaluate gives %s" value)
+           | _ -> fail "se: malformed group") og
+       | "ri" ->
+         let first = ref None in
+         List.iter (fun (o, g) ->
+           match g with
+           | ta' :: r ->
+             if ta' <> tv o a then fail "main variable %s, expected %s" ta' (tv o a);
+             (match top_var o a, r with
+              | Some x, cnt :: roots when value_of x = None && cnt <> "X" ->
+                if int_of_string cnt <> List.length roots then fail "root count";
+                let rs = List.map rnum_of_token roots in
+                (* increasing *)
+                let rec incr = function
+                  | r1 :: (r2 :: _ as t) -> (match rn_cmp big r1 r2 with Some c when sgn_of_z c < 0 -> incr t | _ -> false)
+                  | _ -> true in
+                if not (incr rs) then fail "roots not strictly increasing";
+                (match !first with
+                 | None -> first := Some rs
+                 | Some r0 ->
+                   if List.length r0 <> List.length rs || not (List.for_all2 same_value r0 rs) then
+                     fail "real roots depend on the order: %d vs %d roots" (List.length r0) (List.length rs));
+                (* reference when the other variables have rational values: substitute, isolate *)
+                let others = List.filter (fun y -> y <> x) (mp_vars a) in
+                let rat y = match value_of y with Some (RQ q) -> Some q | _ -> None in
+                if List.for_all (fun y -> rat y <> None) others then begin
+                  let zpow (b : z) (e : int) = let r = ref (z_of_int 1) in for _ = 1 to e do r := Z.mul !r b done; !r in
+                  let deg = int_of_n (mp_degree x a) in
+                  let cs = Array.make (deg + 1) (z_of_int 0) in
+                  List.iter (fun (m, c) ->
+                    let t = ref c and e = ref 0 in
+                    List.iter (fun y ->
+                      let (nu, de) = (match rat y with Some q -> q | None -> assert false) in
+                      let ey = int_of_n (mono_deg y m) and my = int_of_n (mp_degree y a) in
+                      t := Z.mul !t (Z.mul (zpow nu ey) (zpow de (my - ey)))) others;
+                    e := int_of_n (mono_deg x m);
+                    cs.(!e) <- Z.add cs.(!e) !t) a;
+                  if Array.exists (fun c -> sgn_of_z c <> 0) cs then
+                    (match rn_roots big (Array.to_list cs) with
+                     | Some ref_roots ->
+                       if List.length ref_roots <> List.length rs || not (List.for_all2 same_value ref_roots rs) then
+                         fail "real roots: %d, reference %d (or different values)" (List.length rs) (List.length ref_roots)
+                     | None -> ())
+                end
+              | Some x, ["X"] when value_of x <> None -> ()
+              | None, ["X"] -> ()
+              | _ -> fail "ri: X / roots mismatch")
+           | _ -> fail "ri: malformed group") og
+       | _ -> fail "unknown cross-order operation %s" op);
+      deadline := infinity;
+      "CHECK ok"
+    with
+    | Fail w -> deadline := infinity; "CHECK fail: " ^ w
+    | Timeout -> deadline := infinity; "FUEL reference evaluation timed out"
+    | Bad_value w -> deadline := infinity; "CHECK fail: " ^ w)
+  | _ -> "UNKNOWN-OP"
+
+let rec run (toks : string list) (cout : string list) : string =
+  match toks with
+  | "xorder" :: _ -> run_xorder toks cout
+  | _ -> run_history toks cout
+and run_history (toks : string list) (cout : string list) : string =
   (* the implementation's output, split into the groups that follow each ';' *)
   let cgroups =
     let rec go acc cur = function
